@@ -245,7 +245,7 @@ def check_e2e(c):
 
 
 def e2e_strategy():
-    from vlib import fields
+    from vlib import fields, skyimg
     return st.fixed_dictionaries({"rep": skyimg.rep_strategy_exact, "field": fields.field_strategy, "clip": st.sampled_from([(5.0, 4.0), (6.0, 3.0), (10.0, 10.0)])})
 
 
